@@ -163,9 +163,11 @@ Inductive outcome :=
 | R401 (challenge : str)       (* HTTPError(401), WWW-Authenticate = challenge *)
 | R400                         (* HTTPError(400) *)
 | R500 (why : Z)               (* an exception that nothing translates:
-                                  1 TypeError (H of the RequestBody object, qop=auth-int)
-                                  2 ValueError ''Unrecognized value for qop'' (qop = '''')
-                                  3 non-ValueError exception of urllib's parser
+                                  1 TypeError (H of the RequestBody object, qop=auth-int; HA2 only -
+                                    digest_auth answers auth-int with 400 before calling it)
+                                  2 ValueError ''Unrecognized value for qop'' (HA2 only - the
+                                    constructor refuses every qop other than auth/auth-int)
+                                  3 exception of urllib's parser other than ValueError/IndexError
                                   4 ValueError, Basic realm contains a quote
                                   5 ValueError of www_authenticate (bad qop/algorithm argument) *)
 | Unsupported (why : Z).       (* outside the modelled domain: 1 = non-ASCII nonce timestamp reaches int() *)
@@ -177,6 +179,7 @@ Definition of_exn (e : exn) : outcome :=
 Inductive parse_result :=
 | PR_ok (kv : list (str * str))
 | PR_value_error
+| PR_index_error               (* parse_keqv_list on an empty value: v[0] *)
 | PR_other_error.
 
 (* constants *)
@@ -299,6 +302,7 @@ Section Auth.
         p <- emit 2 [params] (parse_params params) ;;
         match p with
         | PR_value_error => ret (inr E400)
+        | PR_index_error => ret (inr E400)      (* HTTPError.handle((ValueError, IndexError), 400) *)
         | PR_other_error => ret (inr (E500 3))
         | PR_ok kv =>
           let a := DAuth http_method (assoc k_realm kv) (assoc k_username kv) (assoc k_nonce kv)
@@ -310,14 +314,16 @@ Section Auth.
           if negb (truthy (a_username a) && truthy (a_realm a) && truthy (a_nonce a)
                    && truthy (a_uri a) && truthy (a_response a))
           then ret (inr E400) else
-          if truthy (a_qop a) then
+          match a_qop a with                      (* if self.qop is not None: *)
+          | Some _ =>
             if negb (opt_eqb (a_qop a) (Some s_auth) || opt_eqb (a_qop a) (Some s_auth_int))
             then ret (inr E400) else
             if negb (truthy (a_cnonce a) && truthy (a_nc a)) then ret (inr E400)
             else ret (inl a)
-          else
+          | None =>
             if truthy (a_cnonce a) || truthy (a_nc a) then ret (inr E400)
             else ret (inl a)
+          end
         end
       end
     end.
@@ -390,6 +396,8 @@ Section Auth.
       match oh with
       | None => respond_401 c now false
       | Some ha1 =>
+        (* if auth.qop == qop_auth_int: raise HTTPError(400) *)
+        if opt_eqb (a_qop a) (Some s_auth_int) then ret R400 else
         d <- request_digest a ha1 ;;
         match d with
         | inr e => ret (of_exn e)
@@ -490,6 +498,7 @@ Definition t_parse (t : sx) (s : str) : parse_result :=
   | Some v => match sx_Z (nth_sx 0 v) with
               | 0 => PR_ok (dec_pairs (nth_sx 1 v))
               | 1 => PR_value_error
+              | 3 => PR_index_error
               | _ => PR_other_error
               end
   | None => PR_other_error
